@@ -402,6 +402,9 @@ func init() {
 			stats := map[string]int{}
 			eng := newEngine(hostZoo)
 			vals := genVals(r, envFamily)
+			for _, p := range nearEqualConstPrograms {
+				cs = append(cs, vmCases(eng, envFamily, vals, p, "prog:near-equal-constants")...)
+			}
 			for _, p := range fixedPrograms {
 				cs = append(cs, vmCases(eng, envFamily, vals, p, "prog:fixed")...)
 			}
